@@ -248,5 +248,5 @@ def tie_order(x, y):
             and x[0][1] != y[0][1])
 
 
-CHECKS = [Check("dump_resume", body, lambda: {"c": dump_case()}, quick=3, thorough=25, quick_shards=12,
+CHECKS = [Check("dump_resume", body, lambda: {"c": dump_case()}, quick=3, thorough=70, quick_shards=12,
                 thorough_shards=16, shrink_quick=False)]
